@@ -331,6 +331,15 @@ def union_order(ctx, crate, crs, tag):
                 names += [t["f"]["name"] for i, t in cb.calls() if t.get("f")]
         allocs = [(i, t) for i, t in b.calls() if t.get("f") and t["f"]["name"] == "alloc"]
         ok = bool(allocs) and not (set(names) & REORDER)
+        # a member is appended for every element of `others`, unconditionally (seed C18-14: `if !vec.contains(..)` drops repeats,
+        # so resolving the union no longer returns what was interned)
+        for cb in crate.bodies:
+            if cb.root and strip_generics(cb.root) == b.key and cb.kind == "Closure":
+                pushes = [pi for pi, pt in cb.calls() if pt.get("f") and pt["f"]["name"] == "push"]
+                if pushes:
+                    cdom = cb.dominators()
+                    if not all(any(pi in cdom.get(r, set()) for pi in pushes) for r in cb.return_blocks()):
+                        ok = False
         if ok:
             i, t = allocs[0]
             lv = q.leaves(b, t["args"][1])
